@@ -199,7 +199,8 @@ Print Assumptions C09_assertion_every_return_needed.
 
 (* (c'') request objects at the authorization endpoint, both routers, GET and POST, RequestObjectSupported on / off,
    whatever the token parses to, each claim check and the signature passing or failing: refused or accepted, and
-   accepted exactly when the option is on, the claims are consistent and the signature verifies *)
+   accepted exactly when the parameter is empty (treated as absent) or the option is on, the claims are consistent and the
+   signature verifies *)
 Theorem C09_request_objects_total :
   forall r : rshape, ro_handler true r = HRefused \/ ro_handler true r = HAccepted.
 Proof. exact ro_handler_total. Qed.
@@ -208,7 +209,7 @@ Print Assumptions C09_request_objects_total.
 Theorem C09_request_object_accept_iff :
   forall r : rshape,
     ro_handler true r = HAccepted <->
-    ro_supported r && ro_parses r && ro_cid_ok r && ro_rt_ok r && ro_iss_ok r && ro_aud_ok r && ro_sig_ok r = true.
+    ro_empty r || (ro_supported r && ro_parses r && ro_cid_ok r && ro_rt_ok r && ro_iss_ok r && ro_aud_ok r && ro_sig_ok r) = true.
 Proof. exact ro_accept_iff. Qed.
 Print Assumptions C09_request_object_accept_iff.
 
